@@ -133,6 +133,55 @@ def one_gamma(ctx, FP, d, gamma):
             core.fl(v["bound"]), worst, wl), replay, found_input=worst > 2e-9)
 
 
+def float_probability(ph, lam):
+    a, b = math.sqrt(lam), math.sqrt(1 - lam)
+    R = np.array([[a, b], [b, -a]], dtype=complex)
+    U = R.copy()
+    for q in ph:
+        U = U @ np.diag([np.exp(1j * q), np.exp(-1j * q)]) @ R
+    return abs(U[0, 0]) ** 2
+
+
+def sweep_all_lengths(ctx, FP, rng, certified):
+    """every d in 1..200 (the property's range), not a sample of lengths: layout and interleaving exactly;
+    the probability is screened in floating point at a few lambda and every length that looks off (and nothing
+    else) is handed to the proven certificate, which alone decides"""
+    drv = ctx.driver()
+    for d in range(1, 201):
+        if d in certified:
+            continue
+        delta = float(10 ** rng.uniform(-3, -0.02))
+        L = 2 * d + 1
+        with core.quiet():
+            g = FP.FPSearch(verbose=False)
+            ph = [float(v) for v in g.generate(d, delta)]
+            av = [float(v) for v in g.generate(d, delta, return_alpha=True)]
+            gamma = float(1 / np.cosh((1 / L) * np.arccosh(1 / delta)))
+            ph_gamma = [float(v) for v in g.generate(d, gamma=gamma)]
+        ctx.count("all-lengths-sweep")
+        ctx.case(["sweep", d, delta], True, {"d": d, "delta": delta, "kind": "all-lengths sweep"})
+        replay = {"d": d, "delta": delta}
+        if len(ph) != 2 * d or ph != ph[::-1] or not P.finite(ph) or len(av) != d:
+            ctx.violation("c18:layout", "generate(d, delta) does not return 2d finite palindromic phases (or d alpha values)", dict(replay, phases=ph[:12], n_alpha=len(av)))
+            continue
+        if pl(drv.ask("fp.layout %s" % rl(F(a) for a in av))) != [F(x) for x in ph]:
+            ctx.violation("c18:interleaving", "phase vector is not the interleaving of -alpha_{d-1-k}/2 and -alpha_k/2", dict(replay, phases=ph[:12]))
+            continue
+        if ph_gamma != ph:
+            ctx.violation("c18:gamma", "passing the corresponding gamma gives different phases", dict(replay, gamma=gamma))
+            continue
+        xf = math.cosh(math.acosh(1 / delta) / L)
+        off = 0.0
+        for lam in (0.0, 1.0, float(rng.uniform(0, 1)), float(rng.uniform(0, 1)) ** 3, min(1.0, 1.5 * (math.log(2 / delta) / L) ** 2)):
+            b = math.sqrt(1 - lam)
+            y = xf * b
+            tl_y = math.cos(L * math.acos(y)) if abs(y) <= 1 else math.cosh(L * math.acosh(abs(y)))
+            off = max(off, abs(float_probability(ph, lam) - (1 - (delta * tl_y) ** 2)))
+        if off > 1e-7:
+            ctx.count("all-lengths-sweep:escalated-to-certificate")
+            one(ctx, FP, d, delta)
+
+
 def run(tier, seed):
     ctx = core.Ctx(PROP, tier, seed, "translation_validation", ["C18"])
     ctx.axioms = core.audit(ctx.modules)
@@ -154,11 +203,13 @@ def run(tier, seed):
     for d, g in ([(3, 0.5), (12, 0.1), (40, 0.3), (110, 0.05)] if tier == "quick" else
                  [(1, 0.9), (3, 0.5), (12, 0.1), (40, 0.3), (64, 0.02), (110, 0.05), (150, 0.15), (200, 0.3)]):
         one_gamma(ctx, FP, d, g)
+    sweep_all_lengths(ctx, FP, rng, set(ds))
     ctx.assumptions = ["the closed form for all (d, delta) at once is the analytic theorem of Yoder-Low-Chuang (not formalised): it is certified per (d, delta) instance, over the whole continuum of lambda",
                        "T_{1/L}(1/delta) is represented by a rational x with |1/T_L(x) - delta| <= 1e-12 delta (checked exactly)"]
     return ctx.finish(
-        rule="search lengths d (listed, up to 40 quick / 200 thorough) x delta log-uniform in (1e-3, 0.95); a case is one FPSearch().generate(d, delta) "
-             "(plus the alpha vector and the gamma form); distinct = distinct (d, delta)")
+        rule="search lengths d (listed, up to 40 quick / 200 thorough) x delta log-uniform in (1e-3, 0.95) with the proven certificate, plus EVERY d in 1..200 "
+             "once (layout and interleaving exact, probability screened in floating point, certificate on whatever looks off); a case is one "
+             "FPSearch().generate(d, delta) (plus the alpha vector and the gamma form); distinct = distinct (d, delta)")
 
 
 def replay(path):
